@@ -438,6 +438,65 @@ impl Slab {
     pub(crate) fn iter(&self) -> SlabIterator<'_> {
         SlabIterator::new(self)
     }
+
+    /// Verification hook: read-only snapshot of the slab's bookkeeping, see `crate::verif`.
+    #[cfg(folo_verif)]
+    #[must_use]
+    pub(crate) fn verif_probe(&self) -> crate::verif::SlabProbe {
+        use crate::verif::FreeListEnd;
+
+        let capacity = self.layout.capacity().get();
+
+        let vacant_next = |index: usize| -> Option<usize> {
+            // SAFETY: Callers only pass in-bounds indexes; every slot holds an initialized SlotMeta.
+            let slot_meta = unsafe { self.slot_ptr_unchecked(index).as_ref() };
+
+            match slot_meta {
+                SlotMeta::Vacant {
+                    next_free_slot_index,
+                } => Some(*next_free_slot_index),
+                SlotMeta::Occupied { .. } => None,
+            }
+        };
+
+        let vacant_next_per_slot = (0..capacity).map(vacant_next).collect::<Vec<_>>();
+        let occupied = vacant_next_per_slot
+            .iter()
+            .map(Option::is_none)
+            .collect::<Vec<_>>();
+
+        let mut free_list = Vec::new();
+        let mut cursor = self.next_free_slot_index;
+
+        let free_list_end = loop {
+            if cursor >= capacity {
+                break FreeListEnd::Terminated;
+            }
+
+            if free_list.len() >= capacity {
+                break FreeListEnd::Cycle;
+            }
+
+            match vacant_next(cursor) {
+                Some(next) => {
+                    free_list.push(cursor);
+                    cursor = next;
+                }
+                None => break FreeListEnd::HitOccupied,
+            }
+        };
+
+        crate::verif::SlabProbe {
+            base: self.first_slot_ptr.as_ptr() as usize,
+            count: self.count,
+            next_free_slot_index: self.next_free_slot_index,
+            occupied,
+            vacant_next: vacant_next_per_slot,
+            free_list,
+            free_list_stop: cursor,
+            free_list_end,
+        }
+    }
 }
 
 impl Drop for Slab {
